@@ -27,7 +27,7 @@ def sched_stage(ctx):
     (hence the reward) depends on what an attempt read, run by the real Scheduler under driven
     schedules (stragglers, slow database); result vs in-order stock revm."""
     agg, bins, _ = sc.run_sweeps(ctx, [
-        ("ben-sched", 71, 1500 if ctx.quick else 25000, ["txs=3..6", "workers=2,3", "opts=ben,chain,cb", "strat=mix2"]),
+        ("ben-sched", 71, 1500 if ctx.quick else 25000, ["txs=3..6", "workers=2,3", "opts=ben,chain,cb,emptyben", "strat=mix2"]),
     ], want_trace=False)
     return agg
 
